@@ -367,6 +367,34 @@ func runC14(p *an.Prog, r *an.Run, tier string) {
 	if !okAtomic {
 		bad = append(bad, "NextID does not advance the id counter atomically")
 	}
+	// the id handed out must be the result of that very atomic operation (increment and read in one step)
+	an.AllInstrs(nextID, func(in ssa.Instruction) {
+		ret, ok := in.(*ssa.Return)
+		if !ok || len(ret.Results) == 0 {
+			return
+		}
+		d := p.Derives(2, an.RetResults(ret)[0])
+		fromAdd := false
+		for _, n := range d.Nodes {
+			if c, ok := n.(*ssa.Call); ok {
+				if f := an.CallObj(c); f != nil && f.Pkg() != nil && f.Pkg().Path() == "sync/atomic" {
+					if strings.HasPrefix(f.Name(), "Add") {
+						fromAdd = true
+					} else {
+						bad = append(bad, "the id returned is read back with atomic."+f.Name()+" instead of being the result of the atomic increment: two concurrent callers can obtain the same id")
+					}
+				}
+			}
+			if u, ok := n.(*ssa.UnOp); ok && u.Op == token.MUL {
+				if fv := an.FieldOf(u.X); fv != nil && fv.Name() == "id" {
+					bad = append(bad, "the id returned is a plain read of the counter")
+				}
+			}
+		}
+		if !fromAdd {
+			bad = append(bad, "the id returned is not the value produced by the atomic increment")
+		}
+	})
 	okUse := false
 	an.AllInstrs(creq, func(in ssa.Instruction) {
 		if st, ok := in.(*ssa.Store); ok {
@@ -384,6 +412,51 @@ func runC14(p *an.Prog, r *an.Run, tier string) {
 		bad = append(bad, "request ids do not come from NextID")
 	}
 	r.Check(len(bad) == 0, "unique-id", an.FuncName(creq), creq.Pos(), "ids = atomic counter per client", "%s", strings.Join(bad, "; "))
+
+	// ---- handler-not-gated: between receiving a request and running its handler nothing may wait on another
+	// request's progress (a per-connection semaphore or queue makes nested call-backs deadlock beyond its depth)
+	{
+		var why []string
+		var handle ssa.Instruction
+		for _, c := range an.Calls(hr, false) {
+			if f := an.CallObj(c); f != nil && f.Name() == "Handle" {
+				handle = c.(ssa.Instruction)
+			}
+		}
+		isWait := func(in ssa.Instruction) bool {
+			if k := blockingKind(p, in); k != "" && !strings.HasPrefix(k, "codec/handler") && !strings.HasPrefix(k, "handler dispatch") {
+				return true
+			}
+			if c, ok := in.(ssa.CallInstruction); ok {
+				if f := an.CallObj(c); f != nil {
+					if (f.Name() == "Acquire" || f.Name() == "Wait") && f.Pkg() != nil && (strings.Contains(f.Pkg().Path(), "semaphore") || f.Pkg().Path() == "sync") {
+						return true
+					}
+				}
+			}
+			return false
+		}
+		if handle == nil {
+			why = append(why, "handleRequest does not invoke the handler")
+		} else if in := an.PathAvoiding(hr, nil, func(x ssa.Instruction) bool { return x == handle }, isWait, nil); in != nil {
+			why = append(why, "handleRequest waits ("+blockingKind(p, in)+" at "+p.Pos(in.Pos())+") before running the handler: handlers that call back over the connection hold their slot while waiting, so nesting beyond the limit deadlocks")
+		}
+		// the dispatching goroutine itself must not be throttled in Serve either
+		if goHR != nil {
+			// only the request branch: the reply branch legitimately sends into the (buffered) waiter channel
+			reqOnly := func(x ssa.Instruction) bool {
+				if x == ssa.Instruction(goHR) || x == readCall.(ssa.Instruction) {
+					return true
+				}
+				_, isSend := x.(*ssa.Send)
+				return isSend && x == ssa.Instruction(send)
+			}
+			if in := an.PathAvoiding(serve, readCall.(ssa.Instruction), reqOnly, isWait, nil); in != nil {
+				why = append(why, "Serve waits at "+p.Pos(in.Pos())+" between reading a request and dispatching it")
+			}
+		}
+		r.Check(len(why) == 0, "handler-not-gated", an.FuncName(hr), hr.Pos(), "nothing waits between receiving a request and running its handler", "%s", strings.Join(why, "; "))
+	}
 
 	// ---- reply-shape: Call must refuse a reply without Response
 	var rs []string
